@@ -3,6 +3,15 @@
    code (Model/LatticeOrder.v) and against the specification (Spec/LatticeOrderSpec.v). *)
 From FCA Require Export Corr.Common Model.LatticeOrder Spec.LatticeOrderSpec.
 
+Record c03_round := {
+  k2_desc : list (list nat); k2_anc : list (list nat);
+  k2_chi : list (list nat); k2_par : list (list nat);
+  k2_leq : list (list bool);
+  k2_top : option nat; k2_bot : option nat;
+  k2_queries : list (nat * list nat * option nat);
+  k2_chains : option (list (list nat))
+}.
+
 Record c03_case := {
   k_table : table;
   k_algo : nat;                 (* build path.  from_context: 0 CbO  1 Lindig  2 default (= Lindig)  3 Sofia;
@@ -24,13 +33,10 @@ Record c03_case := {
   k_chains_sorted : option (list (list nat));   (* _get_chains(is_concepts_sorted=True); sorted listings only *)
   (* second round, asked after the aliasing probe (returned sets mutated in place, add_concept /
      remove_concept run on shallow copies of children_dict / parents_dict): the lattice is
-     immutable for its users, so every answer must be what it was *)
-  k2_desc : list (list nat); k2_anc : list (list nat);
-  k2_chi : list (list nat); k2_par : list (list nat);
-  k2_leq : list (list bool);
-  k2_top : option nat; k2_bot : option nat;
-  k2_queries : list (nat * list nat * option nat);
-  k2_chains : option (list (list nat))
+     immutable for its users, so every answer must be what it was.  None: the harness found the
+     second round equal to the first, value by value (it then ships nothing); otherwise the second
+     round is shipped and compared here *)
+  k_round2 : option c03_round
 }.
 
 Definition concept_eqb (c d : concept) : bool :=
@@ -116,12 +122,16 @@ Definition query_eqb (p q : nat * list nat * option nat) : bool :=
 (* the model and the spec are functions of the concept list alone: the second round is judged
    by comparing it with the first *)
 Definition round2_same (c : c03_case) : bool :=
-  lists_eqb (k_desc c) (k2_desc c) && lists_eqb (k_anc c) (k2_anc c) &&
-  lists_eqb (k_chi c) (k2_chi c) && lists_eqb (k_par c) (k2_par c) &&
-  matrix_eqb (k_leq c) (k2_leq c) &&
-  opt_nat_eqb (k_top c) (k2_top c) && opt_nat_eqb (k_bot c) (k2_bot c) &&
-  list_eqb query_eqb (k_queries c) (k2_queries c) &&
-  opt_chains_eqb (k_chains c) (k2_chains c).
+  match k_round2 c with
+  | None => true
+  | Some r =>
+      lists_eqb (k_desc c) (k2_desc r) && lists_eqb (k_anc c) (k2_anc r) &&
+      lists_eqb (k_chi c) (k2_chi r) && lists_eqb (k_par c) (k2_par r) &&
+      matrix_eqb (k_leq c) (k2_leq r) &&
+      opt_nat_eqb (k_top c) (k2_top r) && opt_nat_eqb (k_bot c) (k2_bot r) &&
+      list_eqb query_eqb (k_queries c) (k2_queries r) &&
+      opt_chains_eqb (k_chains c) (k2_chains r)
+  end.
 
 Definition c03_same_as_model (c : c03_case) : bool :=
   Nat.eqb (k_err c) 0 && round2_same c &&
